@@ -21,13 +21,13 @@ EXHAUSTIVE = {"quick": "all (start,end) for every chromosome of length <= 24 in 
 MIN_NONTRIVIAL = {"quick": 5000, "thorough": 50000}
 REQUIRED_PROBES = ["region_to_extent"]
 
-FAMS = ["fixed_exact", "fixed_short", "fixed_onebin", "variable", "onebin_each", "trap", "mixed"]
+FAMS = ["fixed_exact", "fixed_short", "fixed_onebin", "variable", "onebin_each", "trap", "mixed", "multi_width"]
 
 
 def plan(tier, seed):
     if tier == "quick":
-        return [{"kind": "exh", "fam": FAMS[i % len(FAMS)], "sub": i, "tables": 3, "maxlen": 24} for i in range(14)] + \
-               [{"kind": "big", "sub": i, "tables": 2} for i in range(2)]
+        return [{"kind": "exh", "fam": FAMS[i % len(FAMS)], "sub": i, "tables": 3, "maxlen": 24} for i in range(16)] + \
+               [{"kind": "big", "sub": i, "tables": 3} for i in range(2)]
     return [{"kind": "exh", "fam": FAMS[i % len(FAMS)], "sub": i, "tables": 6, "maxlen": 40} for i in range(42)] + \
            [{"kind": "big", "sub": i, "tables": 6} for i in range(6)]
 
@@ -75,11 +75,20 @@ def small_bt(rng, fam, maxlen):
         elif fam == "mixed":
             r = rng.random()
             e = [0, int(rng.integers(1, b + 1))] if r < 0.4 else gen.fixed_edges(L, b)
+        elif fam == "multi_width":
+            bw = int([2, 3, 5, 4, 7][(ci + b) % 5])       # each chromosome uniform at its own width
+            nbk = int(rng.integers(2, max(3, maxlen // bw)))
+            e = gen.fixed_edges(nbk * bw - int(rng.integers(0, bw)), bw)
+            if len(e) < 3:
+                e = [0, bw, 2 * bw]
         bt.append([name, [int(x) for x in e]])
     if fam == "variable" and gen.bt_fixed_width(bt) is not None:
         bt[0][1] = [0, 3, 4, 9]
     if fam == "trap" and not gen.bt_is_trap(bt):
         bt.append(["trapX", [0, 3 * b + 1]])
+    if fam == "multi_width" and gen.bt_fixed_width(bt) is not None:
+        w0 = bt[0][1][1]
+        bt.append(["mwX", [0, w0 + 1, 2 * w0 + 2, 3 * w0 + 3]])
     return bt
 
 
@@ -249,6 +258,8 @@ def run_big(ctx, shard):
     for t in range(shard["tables"]):
         fam = FAMS[t % len(FAMS)]
         bt = gen.gen_bt(rng, fam, max_chroms=4, max_bins=24, widths=(10, 1000, 4096, 100000))
+        if (shard["sub"] + t) % 4 == 3:
+            bt = gen.gen_giant_bt(rng)          # > 2**31 bp in total
         cid = f"big:{shard['sub']}:{t}"
         r2 = ctx.rng("big-case", shard["sub"], t)
         if ctx.want(cid):
